@@ -42,8 +42,8 @@ ASSUMPTIONS = [
     "runs hit by the recorded Anderson finding are excluded by using aa_depth = 0 here (C04 owns that finding)",
 ]
 FLOORS = {
-    "quick": {"weights_in_8bit_images": 25, "one_object_both_directions": 40, "emd_series_equals_per_slice": 60, "identity_zero": 90, "swap_symmetric": 180, "scaling_linear": 250, "first_moment_bound": 650, "true_minimum_bound": 140, "thin_grid_unique_flux": 150, "frontend_equals_backend": 400, "emd": 300, "emd_object_reused_across_cases": 20, "options_dictionary_reused": 50},
-    "thorough": {"weights_in_8bit_images": 200, "one_object_both_directions": 300, "emd_series_equals_per_slice": 600, "identity_zero": 450, "swap_symmetric": 1300, "scaling_linear": 1800, "first_moment_bound": 6000, "true_minimum_bound": 1100, "thin_grid_unique_flux": 2300, "frontend_equals_backend": 3000, "emd": 2000, "emd_object_reused_across_cases": 200, "options_dictionary_reused": 500},
+    "quick": {"emd_masses_in_8bit_images": 50, "weights_in_8bit_images": 25, "one_object_both_directions": 40, "emd_series_equals_per_slice": 60, "identity_zero": 90, "swap_symmetric": 180, "scaling_linear": 250, "first_moment_bound": 650, "true_minimum_bound": 140, "thin_grid_unique_flux": 150, "frontend_equals_backend": 400, "emd": 300, "emd_object_reused_across_cases": 20, "options_dictionary_reused": 50},
+    "thorough": {"emd_masses_in_8bit_images": 400, "weights_in_8bit_images": 200, "one_object_both_directions": 300, "emd_series_equals_per_slice": 600, "identity_zero": 450, "swap_symmetric": 1300, "scaling_linear": 1800, "first_moment_bound": 6000, "true_minimum_bound": 1100, "thin_grid_unique_flux": 2300, "frontend_equals_backend": 3000, "emd": 2000, "emd_object_reused_across_cases": 200, "options_dictionary_reused": 500},
 }
 SHARD_TIMEOUT = {"quick": 1500, "thorough": 6000}
 LAW_GRIDS = [(9,), (30,), (4, 5), (1, 12), (8, 8), (12, 10), (3, 3, 3), (4, 5, 6), (2, 1, 9), (17, 16)]
@@ -205,6 +205,15 @@ def run_shard(spec, R):
                     R.check(abs(ds - cc * d12) <= 1e-5 * cc * sc, "emd", {**desc, "law": "scaling", "c": cc, "scaled": ds, "base": d12})
                 fm = TR.first_moment_bound(M, M.flat(b - a))
                 R.check(d12 >= fm - 1e-5 * max(fm, sc), "emd", {**desc, "law": "first_moment", "distance": d12, "bound": fm})
+                # the same (integer-valued) masses held in 8-bit images, as photographs are: same distance
+                if float(min(a.min(), b.min())) >= 0 and float(max(a.max(), b.max())) <= 255 and np.array_equal(a, np.round(a)) and np.array_equal(b, np.round(b)):
+                    # (scaled up to the 8-bit range, so that the total mass exceeds what 8 bits hold)
+                    ku = max(1, int(255 // max(float(a.max()), float(b.max()), 1.0)))
+                    u1, u2 = wass.images(darsia, (ku * a).astype(np.uint8), (ku * b).astype(np.uint8), h)
+                    ok, du = R.guarded("emd", lambda: emd(u1, u2))
+                    if ok:
+                        R.check(abs(float(du) - ku * d12) <= 1e-5 * ku * sc, "emd", lambda: {**desc, "law": "masses_in_8bit_images", "uint8": float(du), "float": ku * d12, "total_mass": float(ku * a.sum())}, group="uint8")
+                        R.count("emd_masses_in_8bit_images")
                 # two pairs as the two time slices of a pair of series images: one distance per slice, equal to the
                 # distance of that slice taken alone
                 a2, b2 = wass.mass_pair(rng, shape, kind)
